@@ -19,6 +19,7 @@ type scopeGen struct {
 	locals []string // names likely in scope (bias towards shadowing / use of visible names)
 	pool   []string
 	gpool  []string
+	fresh  func() string // when set, every declaration gets a new unique name
 }
 
 func newScopeGen(r *lib.Rng) *scopeGen {
@@ -27,7 +28,12 @@ func newScopeGen(r *lib.Rng) *scopeGen {
 
 func (g *scopeGen) line(s string) { g.lines = append(g.lines, strings.Repeat("  ", g.indent)+s) }
 
-func (g *scopeGen) name() string { return g.pool[g.r.Intn(len(g.pool))] }
+func (g *scopeGen) name() string {
+	if g.fresh != nil {
+		return g.fresh()
+	}
+	return g.pool[g.r.Intn(len(g.pool))]
+}
 
 func (g *scopeGen) useName() string {
 	if len(g.locals) > 0 && g.r.Chance(3, 4) {
